@@ -240,6 +240,57 @@ def parse_line(text: str):
     return r
 
 
+HISTORY_DEPENDENT: list = []
+
+
+def run_reader_cases_fresh(cases):
+    """`run_reader_cases` in a new process (the first thing that process does with the library)"""
+    import os
+    import pickle
+    import subprocess
+    import sys
+
+    from . import core
+
+    env = dict(os.environ)
+    env["PYTHONPATH"] = str(core.ROOT / "py") + os.pathsep + env.get("PYTHONPATH", "")
+    env["VERIF_REPO"] = str(core.REPO)
+    p = subprocess.run([sys.executable, "-m", "verifpy.stdio_worker", "reader"], input=pickle.dumps(cases), capture_output=True, env=env, timeout=900)
+    if p.returncode != 0:
+        return [{"harness_error": "worker: " + p.stderr.decode("utf-8", "replace")[-300:]} for _ in cases]
+    return pickle.loads(p.stdout)
+
+
+def prejudge(texts):
+    """Fill the verdict cache for these lines from a process that has parsed nothing else (`stdio_judge`): what a
+    well-formed line is must not depend on what this process, or the library's parser, saw before.  Lines the judge
+    could not decide stay with the in-process answer.  Returns the lines on which the parser's answer turned out to
+    depend on its history."""
+    import os
+    import pickle
+    import subprocess
+    import sys
+
+    from . import core
+
+    todo = list(dict.fromkeys(texts))  # also lines already asked in-process: the fresh answer replaces that one
+    if not todo or not hasattr(os, "fork"):
+        return []
+    env = dict(os.environ)
+    env["PYTHONPATH"] = str(core.ROOT / "py") + os.pathsep + env.get("PYTHONPATH", "")
+    env["VERIF_REPO"] = str(core.REPO)
+    try:
+        p = subprocess.run([sys.executable, "-m", "verifpy.stdio_judge"], input=pickle.dumps(todo), capture_output=True, env=env, timeout=600)
+        r = pickle.loads(p.stdout)
+    except Exception:  # noqa
+        return []
+    _PARSE_CACHE.update(r["verdicts"])
+    for t in r["history_dependent"]:
+        if t not in HISTORY_DEPENDENT:
+            HISTORY_DEPENDENT.append(t)
+    return r["history_dependent"]
+
+
 def _key_of(m):
     """the key under which the legacy per-request API looks a message up: `str(id)` (None for no id)"""
     i = getattr(m, "id", None)
@@ -359,6 +410,52 @@ def _open_client(mod, api, server=None):
     return client, get
 
 
+class _BodyError(Exception):
+    """what the body of `async with client:` raises in a session that ends with an exception"""
+
+
+class _session_ending:
+    """`async with cm` whose body ends the way `end` says once the caller's block is through:
+    None = the host leaves normally; "child-exited" = the child has already exited by itself (returncode set) when the host
+    leaves; "exception" = the body raises; "cancelled" = the body is cancelled from outside.  What the context manager does
+    with the exception / cancellation stays inside this wrapper: the session's observation is complete either way."""
+
+    def __init__(self, cm, end, proc):
+        self.cm, self.end, self.proc = cm, end, proc
+
+    async def __aenter__(self):
+        return await self.cm.__aenter__()
+
+    async def __aexit__(self, et, ev, tb):
+        import anyio
+
+        if et is not None or self.end is None:
+            return await self.cm.__aexit__(et, ev, tb)
+        if self.end == "child-exited":
+            self.proc.returncode = 0
+            return await self.cm.__aexit__(None, None, None)
+        if self.end == "exception":
+            try:
+                raise _BodyError("the body failed")
+            except _BodyError as ex:
+                try:
+                    if not await self.cm.__aexit__(type(ex), ex, ex.__traceback__):
+                        pass
+                except _BodyError:
+                    pass
+            return True
+        if self.end == "cancelled":
+            with anyio.CancelScope() as scope:
+                scope.cancel()
+                try:
+                    await anyio.sleep(0)
+                except BaseException as ex:  # noqa: the cancellation, handed to the context manager as the body's exception
+                    await self.cm.__aexit__(type(ex), ex, ex.__traceback__)
+                    raise
+            return True
+        raise ValueError(self.end)
+
+
 async def _reader_session(mod, holder, case, cm, get, client_hint=None):
     import anyio
 
@@ -368,7 +465,7 @@ async def _reader_session(mod, holder, case, cm, get, client_hint=None):
     proc.client = client_hint
     delivered, notified, legacy, info = [], [], {}, []
     eof = False
-    async with cm as entered:
+    async with _session_ending(cm, opts.get("end"), proc) as entered:
         client, read, write = await get(entered)
         proc.client = client if client is not None else _NoClient()
         if opts.get("api") == "transport":
@@ -414,6 +511,12 @@ async def _reader_session(mod, holder, case, cm, get, client_hint=None):
                     frozen.append(dump_msg(m))  # what arrived
                     delivered.append(m)
                     scribble(m)                  # … and what the consumer then does with ITS object
+            elif opts.get("consume_max") is not None:  # a consumer that stops reading (and leaves) with lines still pending
+                if int(opts["consume_max"]) > 0:
+                    async for m in read:
+                        delivered.append(m)
+                        if len(delivered) >= int(opts["consume_max"]):
+                            break
             else:
                 async for m in read:
                     delivered.append(m)
@@ -425,7 +528,7 @@ async def _reader_session(mod, holder, case, cm, get, client_hint=None):
                 tg.start_soon(consume)
             idle = sum(e.get("sleep", 0) for e in case["events"]) * STEP
             await anyio.sleep(30.0 + idle)  # virtual: returns once every other task is blocked or done
-            if client is not None and not opts.get("notif_closed"):
+            if client is not None and not opts.get("notif_closed") and not opts.get("notifs_unread"):
                 try:
                     while True:
                         notified.append(client.notifications.receive_nowait())
@@ -445,7 +548,8 @@ async def _reader_session(mod, holder, case, cm, get, client_hint=None):
         "delivered": None if opts.get("read_closed") else (frozen if opts.get("consumer") == "mutate" else [dump_msg(m) for m in delivered]),
         # (the notification stream holds the SAME objects as the read stream: after a scribbling consumer its content is not compared)
         "notified": [dump_msg(m) for m in notified] if (proc.client is not None and not isinstance(proc.client, _NoClient)
-                                                        and not opts.get("notif_closed") and opts.get("consumer") != "mutate") else None,
+                                                        and not opts.get("notif_closed") and not opts.get("notifs_unread")
+                                                        and opts.get("consumer") != "mutate") else None,
         "writes": _decode_writes(proc.stdin.sends),
         "eof": eof,
         "legacy": legacy,
@@ -485,10 +589,11 @@ async def _reader_case(mod, holder, case):
         # always on the SAME client / transport object
         scripts = case.get("session_events") or [case["events"]] * int(opts.get("sessions", 1))
         obs_all = []
-        for ev in scripts:
+        sopts = case.get("session_opts") or [{}] * len(scripts)  # per-session additions to "opts" (how this session's consumer behaves)
+        for ev, so in zip(scripts, sopts):
             if opts.get("api") in ("function", "with_initialize") and obs_all:
                 cm, get = _open_client(mod, opts["api"], case.get("server"))  # a generator-based context manager is single-use
-            obs_all.append(await _reader_session(mod, holder, dict(case, events=ev), cm, get))
+            obs_all.append(await _reader_session(mod, holder, dict(case, events=ev, opts=dict(opts, **so)), cm, get))
         entered = True
     except (Exception, _Cancelled()) as ex:  # noqa (a crashed task of the client cancels the host task too)
         return {"harness_error": type(ex).__name__, "entered": entered}
@@ -512,7 +617,27 @@ async def _send_items(client, write, items, build):
 
 async def _writer_case(mod, holder, case, build):
     """case: {"items": [...]}; `build(item)` -> the object put on the write stream.
-    Observation: the bytes the child received and whether / when its stdin was closed."""
+    Observation: the bytes the child received and whether / when its stdin was closed.
+    "prior": [case, ...] = earlier connections on the SAME client / transport object (each with its own child, items and
+    ending); their observations come back under "earlier"."""
+    specs = list(case.get("prior", [])) + [case]
+    api = case.get("api", "client")
+    obs_all = []
+    try:
+        cm, get = _open_client(mod, api, case.get("server"))
+        for k, spec in enumerate(specs):
+            if k and api in ("function", "with_initialize"):
+                cm, get = _open_client(mod, api, case.get("server"))  # a generator-based context manager is single-use
+            obs_all.append(await _writer_session(mod, holder, spec, cm, get, build))
+    except (Exception, _Cancelled()) as ex:  # noqa (a crashed task of the client cancels the host task too)
+        return {"harness_error": type(ex).__name__, "connection": len(obs_all) + 1}
+    o = obs_all[-1]
+    if len(obs_all) > 1:
+        o["earlier"] = obs_all[:-1]
+    return o
+
+
+async def _writer_session(mod, holder, case, cm, get, build):
     import anyio
 
     proc = FakeProcess([])
@@ -525,33 +650,29 @@ async def _writer_case(mod, holder, case, build):
 
     proc.stdout._next = _wait_forever  # type: ignore[method-assign]
     holder["proc"] = proc
-    try:
-        cm, get = _open_client(mod, case.get("api", "client"), case.get("server"))
-        async with cm as entered:
-            client, _read, write = await get(entered)
-            proc.client = client
-            proc.stdin.aclose_raises = bool(case.get("aclose_raises"))
-            proc.stdin.fail_sends = set(case.get("fail_sends", []))
-            proc.stdin.breaks_at = case.get("breaks_at")
-            await _send_items(client, write, case["items"], build)
+    async with cm as entered:
+        client, _read, write = await get(entered)
+        proc.client = client
+        proc.stdin.aclose_raises = bool(case.get("aclose_raises"))
+        proc.stdin.fail_sends = set(case.get("fail_sends", []))
+        proc.stdin.breaks_at = case.get("breaks_at")
+        await _send_items(client, write, case["items"], build)
+        await anyio.sleep(1.0)
+        before_close = {"closed": proc.stdin.closed, "n": len(proc.stdin.sends)}
+        late = None
+        if case.get("late_send_json") and client is not None:
+            # the writer task is gone (its end of the outgoing stream closed): the legacy send_json must not raise
+            client._outgoing_recv.close()
+            try:
+                await client.send_json(build(case["late_send_json"]))
+                late = "returned"
+            except Exception as ex:  # noqa
+                late = "raised:" + type(ex).__name__
+        if case.get("close", True):
+            await write.aclose()
             await anyio.sleep(1.0)
-            before_close = {"closed": proc.stdin.closed, "n": len(proc.stdin.sends)}
-            late = None
-            if case.get("late_send_json") and client is not None:
-                # the writer task is gone (its end of the outgoing stream closed): the legacy send_json must not raise
-                client._outgoing_recv.close()
-                try:
-                    await client.send_json(build(case["late_send_json"]))
-                    late = "returned"
-                except Exception as ex:  # noqa
-                    late = "raised:" + type(ex).__name__
-            if case.get("close", True):
-                await write.aclose()
-                await anyio.sleep(1.0)
-            after = {"closed": proc.stdin.closed, "sends_at_close": proc.stdin.sends_at_close}
-            sends = list(proc.stdin.sends)
-    except (Exception, _Cancelled()) as ex:  # noqa (a crashed task of the client cancels the host task too)
-        return {"harness_error": type(ex).__name__}
+        after = {"closed": proc.stdin.closed, "sends_at_close": proc.stdin.sends_at_close}
+        sends = list(proc.stdin.sends)
     return {"bytes": b"".join(sends).hex(), "sends": len(sends), "before_close": before_close, "after_close": after, "late": late,
             "failed_sends": list(proc.stdin.failed)}
 
